@@ -111,8 +111,17 @@ Inductive ppc := PRead | PStat | POpen (sz : nat) | PEnded.
 Record pstate := mkp { penv : env; pfd : fd; ppcs : ppc; rb : nat (* readBytes *); pdel : bytes;
                         patt : nat }.   (* read attempts left before the next os.Stat (ReadAttempts - i) *)
 
+(* what the plain-follow branch sees when it looks at the path.  Repaired (fixes/C15-poll-plain-recreate.patch,
+   applied): err == nil && isOpenFile(st), i.e. the path exists and still is the open file (os.SameFile; with no
+   descriptor only existence counts).  As found: os.Stat succeeds. *)
+Definition still_open (e : env) (f : fd) : bool :=
+  match f with None => present e | Some _ => fd_current e f end.
+Definition plain_sees (repaired : bool) (e : env) (f : fd) : bool :=
+  if repaired then still_open e f else present e.
+
 Section Poll.
 Variable reopen : bool.
+Variable repaired : bool.     (* true: plain-follow Stat rule after the repair; false: as found *)
 
 (* ReadAttempts is an exported field: whenever the attempt counter restarts, the budget [a] is any number. *)
 Inductive pstep : pstate -> label -> pstate -> Prop :=
@@ -141,10 +150,10 @@ Inductive pstep : pstate -> label -> pstate -> Prop :=
                   then mkp (penv s) (match open_cur (penv s) with Some (i, _) => Some (i, rb s) | None => None end)
                            PRead (rb s) (pdel s) a
                   else mkp (penv s) (open_cur (penv s)) PRead 0 (pdel s) a)
-(* no Reopen: the path is still there: next round; it is gone: Close; return 0, io.EOF *)
-| p_stat_present s a : ppcs s = PStat -> reopen = false -> present (penv s) = true ->
+(* no Reopen: the path is there and is the open file: next round; gone or replaced: Close; return 0, io.EOF *)
+| p_stat_present s a : ppcs s = PStat -> reopen = false -> plain_sees repaired (penv s) (pfd s) = true ->
     pstep s LTau (mkp (penv s) (pfd s) PRead (rb s) (pdel s) a)
-| p_stat_gone s : ppcs s = PStat -> reopen = false -> present (penv s) = false ->
+| p_stat_gone s : ppcs s = PStat -> reopen = false -> plain_sees repaired (penv s) (pfd s) = false ->
     pstep s LEof (mkp (penv s) (pfd s) PEnded (rb s) (pdel s) (patt s))
 (* another entry of the directory changes: nothing the poller looks at *)
 | p_sibling s : pstep s LSibling s.
@@ -244,8 +253,19 @@ Definition data_of (tr : list label) : bytes :=
 
 (* the functional projection compared with the implementation: what must have been delivered once the
    reader is quiescent, and how the stream ends *)
+(* what has to be delivered in the end.  Re-open: everything written, incarnation after incarnation.  Plain
+   follow: only what is written before the first removal - the stream ends there whatever happens to the path
+   afterwards, nothing of a re-created file is delivered. *)
+Fixpoint wanted (ro rm : bool) (h : list label) : bytes :=
+  match h with
+  | [] => []
+  | LAppend b :: r => (if negb ro && rm then [] else b) ++ wanted ro rm r
+  | LRemove :: r => wanted ro true r
+  | _ :: r => wanted ro rm r
+  end.
+Definition want (ro : bool) (e : env) : bytes := if ro then all e else content e 0.
 Definition expected (i : cin) : bytes :=
-  sE (spec_init (i_c0 i) (i_tail i)) ++ flat_map (fun l => match l with LAppend b => b | _ => [] end) (i_hist i).
+  sE (spec_init (i_c0 i) (i_tail i)) ++ wanted (i_reopen i) false (i_hist i).
 Definition expected_term (i : cin) : N :=
   if negb (i_reopen i) && existsb is_remove (i_hist i) then 1%N else 0%N.
 Definition model (i : cin) : obs := (expected i, expected_term i, []).
@@ -255,12 +275,12 @@ Definition obs_eqb (a b : obs) : bool :=
 (* the property on an observed run: the log is the given history with Read results interleaved; it is
    accepted by the specification (every chunk continues the expected stream exactly where the previous one
    stopped, no chunk arrives before its bytes were written, removal only after drain, EOF only in plain
-   follow after a removal); at the end everything written was delivered; the stream ended iff it had to *)
+   follow after a removal); at the end exactly [expected] was delivered; the stream ended iff it had to *)
 Definition C15_check (i : cin) (o : obs) : bool :=
   let '(d, t, tr) := o in
   list_eqb label_eqb (filter is_env tr) (i_hist i) &&
   bytes_eqb (data_of tr) d &&
   match spec_run (i_reopen i) (spec_init (i_c0 i) (i_tail i)) tr with
-  | Some s => bytes_eqb (sDl s) (sE s) && N.eqb t (expected_term i) && Bool.eqb (sEnded s) (N.eqb t 1)
+  | Some s => bytes_eqb d (expected i) && N.eqb t (expected_term i) && Bool.eqb (sEnded s) (N.eqb t 1)
   | None => false
   end.
